@@ -22,15 +22,38 @@ import (
 	"time"
 )
 
-// Paths.
-const (
-	RepoDir   = "/repo"
-	VerifDir  = "/verif"
-	SimDir    = "/verif/sim"
-	GoBin     = "/opt/veriftools/go1.26.8/bin"
-	ReplayDir = "/verif/replays"
-	EvidDir   = "/verif/evidence"
+// GoBin is the toolchain every build uses.
+const GoBin = "/opt/veriftools/go1.26.8/bin"
+
+// Paths. The registered commands run with cwd=/verif against /repo; a
+// background run from a snapshot (vp run --with-repo) sets VERIF_REPO and runs
+// from the snapshot's directory, so nothing it writes lands in /verif.
+var (
+	RepoDir   = envOr("VERIF_REPO", "/repo")
+	VerifDir  = verifDir()
+	SimDir    = filepath.Join(VerifDir, "sim")
+	ReplayDir = filepath.Join(VerifDir, "replays")
+	EvidDir   = filepath.Join(VerifDir, "evidence")
 )
+
+func envOr(k, def string) string {
+	if v := os.Getenv(k); v != "" {
+		return v
+	}
+	return def
+}
+
+func verifDir() string {
+	if v := os.Getenv("VERIF_DIR"); v != "" {
+		return v
+	}
+	if wd, err := os.Getwd(); err == nil {
+		if _, err := os.Stat(filepath.Join(wd, "sim", "go.mod")); err == nil {
+			return wd
+		}
+	}
+	return "/verif"
+}
 
 // ExitError carries the exit status a check must end with: 2 for anything
 // that is not a verdict.
